@@ -354,6 +354,11 @@ pub fn world_engine(prop: &str, thorough: bool) -> Option<WorldEngine> {
 }
 
 pub fn rule_text(prop: &str) -> String {
+    let also = match prop {
+        "C01" | "C02" | "C03" | "C13" => " One case in eight is instead a virtual-clock scenario over the crate's interval source (see C16), decided by the same monitors.",
+        "C17" => " One case in eight is instead a virtual-clock interval scenario (see C16) and one in eight a pull pipeline program (see C06); any panic in them counts.",
+        _ => "",
+    };
     let gen = "cases are scenarios (operator topology over harness-owned puppet sources and probe sinks + per-peer behaviour tables + a top-level schedule) decoded from proptest-generated byte strings and run against the real crate; distinct = distinct FNV-1a digest of the full nested message history; ";
     let nt = match prop {
         "C01" => "non-trivial = an upstream acted inside a greeting (burst, synchronous Pull reply during the handshake, late greeting) or the sink reacted inside its handshake handler",
@@ -373,7 +378,7 @@ pub fn rule_text(prop: &str) -> String {
         "C15" => "non-trivial = a Pull was sent from inside a data handler, or the sink disposed with items left, or completion was reached after 2+ items",
         _ => "non-trivial = at least one instance was subscribed",
     };
-    format!("{gen}{nt}")
+    format!("{gen}{nt}.{also}")
 }
 
 #[allow(dead_code)]
